@@ -1,5 +1,5 @@
 import TeaalVerif.Driver.C01
-import TeaalVerif.Props.C04Den
+import TeaalVerif.Props.C04Var
 open Lean
 namespace Driver
 open Nest HF
@@ -14,11 +14,7 @@ def affOfJson (j : Json) : Except String AffS := do
   let c ← HF.intOf (← fld j "const")
   pure ⟨ts, c⟩
 
-/-- anything but a plain variable is read through `project` -/
-def isProj (e : AffS) : Bool :=
-  match e.terms, e.const with
-  | [(1, _)], 0 => false
-  | _, _ => true
+def isProj (e : AffS) : Bool := C04.isProjE e
 
 def einsumASOfJson (j : Json) : Except String (EinsumAS × (String → Pts)) := do
   let loop ← strList (← fld j "loop")
@@ -40,6 +36,18 @@ def einsumASOfJson (j : Json) : Except String (EinsumAS × (String → Pts)) := 
     terms := terms ++ [{ kind := Kind.times, scal := scal, tensors := tensors }]
   let envF : String → Pts := fun n => (env.lookup n).getD []
   return ({ loop := loop, exts := exts, outName := outName, outVars := outVars, terms := terms }, envF)
+
+/-- a loop over the accessed tensor's own rank: the index variable `s` it replaces, the loop variable `w`, and the own-rank
+    access `c0*s + rho` -/
+structure OwnSpec where
+  s : String
+  w : String
+  c0 : Int
+  rho : AffS
+  Se : Nat
+
+def ownOfJson (j : Json) : Except String OwnSpec := do
+  pure ⟨← HF.strOf (← fld j "s"), ← HF.strOf (← fld j "w"), ← HF.intOf (← fld j "c0"), ← affOfJson (← fld j "rho"), ← natOf (← fld j "Se")⟩
 
 /-! ### rational-affine reading of a `trans_fn` body -/
 
@@ -181,12 +189,26 @@ def checkLoop (exp : String × List (String × Bool × AffS)) (act : String × L
   errs0 ++ errs1 ++ errs2
 
 def nestAff (j : Json) : Except String Json := do
-  let (S, env) ← einsumASOfJson j
+  let (S0, env) ← einsumASOfJson j
+  -- with an own-rank loop the terms arrive as the user wrote them; the loop-variable form is computed here (C04.loopFormTerms)
+  let own ← match j.getObjVal? "own" with
+    | .ok oj => do pure (some (← ownOfJson oj))
+    | .error _ => pure none
+  let S : EinsumAS := match own with
+    | some o => { S0 with terms := C04.loopFormTerms o.s o.w o.c0 o.rho S0.terms }
+    | none => S0
   let ls := levelsA S
   let sts := initTermsA S env
   let r := collectA S (runA ls sts)
   let m := collectA S (specA ls sts)
-  let hyps := decide (C04.HypsA S env)
+  let varOK := match own with
+    | some o =>
+      let R := (S.loop.zip S.exts).filter fun p => p.1 != o.w
+      let We := ((S.loop.zip S.exts).lookup o.w).getD 0
+      decide ((S.loop.zip S.exts).Perm (R ++ [(o.w, We)])) &&
+        decide (C04.VarHyps o.s o.w o.c0 o.rho o.Se We (concord S.loop S.outVars) S0.terms env)
+    | none => true
+  let hyps := decide (C04.HypsA S env) && varOK
   let exp := expectedUses S
   let base := [("run", jPts r), ("spec", jPts m), ("hyps_ok", Json.bool hyps),
                ("expected_loops", Json.arr (exp.map fun (v, es) => Json.arr #[Json.str v, jStrs (es.map (·.1))]).toArray)]
